@@ -1048,33 +1048,83 @@ func c13WriterBalancer(p *load.Program, r *oblig.Report) {
 // for t <= 0. Decided: both functions return the same shapes up to the time zone call of the root package.
 func c05TimeSiblings(p *load.Program, r *oblig.Report) {
 	const rule = "C05.R15 both decode paths turn a wire timestamp into the same time"
-	root, proto := p.Func("", "makeTime"), p.Func("protocol", "makeTime")
-	if root == nil || proto == nil {
-		r.Lost(rule, "kafka.makeTime / protocol.makeTime")
-		return
-	}
-	norm := func(fn *ssa.Function) []string {
-		var out []string
-		for _, s := range returnShapesWith(fn, an.ShapeCanon) {
-			if strings.HasPrefix(s, "UTC(") {
-				s = strings.TrimSuffix(strings.TrimPrefix(s, "UTC("), ")")
-			}
-			out = append(out, s)
+	n := 0
+	for _, rel := range []string{"", "protocol"} {
+		fn := p.Func(rel, "makeTime")
+		name := "kafka.makeTime"
+		if rel != "" {
+			name = "protocol.makeTime"
 		}
-		sort.Strings(out)
-		return out
-	}
-	guard := func(fn *ssa.Function) string {
+		if fn == nil {
+			r.Lost(rule, name)
+			continue
+		}
+		n++
+		// the one test on the parameter, evaluated for -1, 0 and 1: which return is reached
+		table := map[int64]string{}
 		for _, b := range an.Blocks(fn) {
-			if iff, ci := an.IfCond(b); iff != nil && ci != nil {
-				return clean(an.ShapeCanon(iff.Cond))
+			_, ci := an.IfCond(b)
+			if ci == nil {
+				continue
+			}
+			x, y, op := ci.X, ci.Y, ci.Op
+			if _, isK := an.ConstInt(x); isK {
+				x, y, op = y, x, flipOp(op)
+			}
+			k, isK := an.ConstInt(y)
+			if !isK || stripConvs(x) != ssa.Value(fn.Params[0]) {
+				continue
+			}
+			for _, t := range []int64{-1, 0, 1} {
+				holds := false
+				switch op {
+				case token.LSS:
+					holds = t < k
+				case token.LEQ:
+					holds = t <= k
+				case token.GTR:
+					holds = t > k
+				case token.GEQ:
+					holds = t >= k
+				case token.EQL:
+					holds = t == k
+				case token.NEQ:
+					holds = t != k
+				}
+				if ci.Neg {
+					holds = !holds
+				}
+				succ := b.Succs[1]
+				if holds {
+					succ = b.Succs[0]
+				}
+				// the return reached from that successor
+				kind := "?"
+				hit := an.PathQuery{Fn: fn, Target: func(i ssa.Instruction) bool { _, isRet := i.(*ssa.Return); return isRet }}.ReachableFrom(an.Point{B: succ, Idx: -1})
+				if ret, isRet := hit.(*ssa.Return); isRet {
+					v := an.RetVal(ret, 0)
+					if ph, isPhi := v.(*ssa.Phi); isPhi {
+						for i2, pred := range ph.Block().Preds {
+							if pred == succ || succ.Dominates(pred) || (succ == ph.Block() && pred == b) {
+								v = ph.Edges[i2]
+							}
+						}
+					}
+					sh := clean(an.ShapeCanon(v))
+					switch {
+					case strings.Contains(sh, "Unix("):
+						kind = "unix"
+					default:
+						kind = "zero"
+					}
+				}
+				table[t] = kind
 			}
 		}
-		return "no guard"
+		got := fmt.Sprintf("-1→%s 0→%s 1→%s", table[-1], table[0], table[1])
+		r.Check(got == "-1→zero 0→zero 1→unix", rule, name+" answers the zero time for t <= 0 and the Unix time in milliseconds otherwise", p.Pos(fn.Pos()), "-1→zero 0→zero 1→unix", got)
 	}
-	a, b := norm(root), norm(proto)
-	r.Check(strings.Join(a, " | ") == strings.Join(b, " | ") && guard(root) == guard(proto) && len(a) == 2, rule, "kafka.makeTime and protocol.makeTime agree (zero time for t <= 0, Unix milliseconds otherwise)", p.Pos(proto.Pos()),
-		strings.Join(a, " | ")+" when "+guard(root), strings.Join(b, " | ")+" when "+guard(proto))
+	r.RequireCount(rule, n, 2)
 }
 
 // c11ApiVersionsCount: the inline ApiVersions decoder sizes its result from the announced count; the count must be
@@ -1532,34 +1582,117 @@ func flipOp(op token.Token) token.Token {
 // the request). The two functions are siblings: their tests must be the same tests.
 func c12LeaderSiblings(p *load.Program, r *oblig.Report) {
 	const rule = "C12.R14 produce and fetch requests agree on how the partition leader is found"
-	a, b := p.Func("protocol/produce", "(*Request).Broker"), p.Func("protocol/fetch", "(*Request).Broker")
-	if a == nil || b == nil {
-		r.Lost(rule, "produce.(*Request).Broker / fetch.(*Request).Broker")
-		return
-	}
-	conds := func(fn *ssa.Function) []string {
-		var out []string
-		for _, blk := range an.Blocks(fn) {
-			if iff, _ := an.IfCond(blk); iff != nil {
-				s := clean(an.ShapeCanon(iff.Cond))
-				if strings.Contains(s, "idx(") && !strings.Contains(s, ".ID") && !strings.Contains(s, "#1") {
-					continue // loop tests
+	n := 0
+	for _, rel := range []string{"protocol/produce", "protocol/fetch"} {
+		fn := p.Func(rel, "(*Request).Broker")
+		construct := rel + ".(*Request).Broker → every partition's leader exists and is the leader of the partitions seen before"
+		if fn == nil {
+			r.Lost(rule, construct)
+			continue
+		}
+		n++
+		// (1) the leader is looked up in cluster.Brokers with a tested comma-ok lookup
+		var lookups []*ssa.Lookup
+		an.EachInstr(fn, func(ins ssa.Instruction) {
+			if lk, ok := ins.(*ssa.Lookup); ok && lk.CommaOk {
+				if mt, isMap := lk.X.Type().Underlying().(*types.Map); isMap && an.NamedIs(mt.Elem(), protoPath, "Broker") {
+					lookups = append(lookups, lk)
 				}
-				out = append(out, s)
+			}
+		})
+		fromLookup := func(v ssa.Value) bool {
+			// the ID field of the broker found by the lookup
+			seen := map[ssa.Value]bool{}
+			var walk func(v ssa.Value) bool
+			walk = func(v ssa.Value) bool {
+				if seen[v] {
+					return false
+				}
+				seen[v] = true
+				switch x := v.(type) {
+				case *ssa.Field:
+					return walk(x.X)
+				case *ssa.Extract:
+					for _, lk := range lookups {
+						if x.Tuple == ssa.Value(lk) && x.Index == 0 {
+							return true
+						}
+					}
+				case *ssa.UnOp:
+					if fa, ok := x.X.(*ssa.FieldAddr); ok {
+						return walk(fa.X)
+					}
+					if a, ok := x.X.(*ssa.Alloc); ok {
+						for _, ref := range *a.Referrers() {
+							if st, isSt := ref.(*ssa.Store); isSt && st.Addr == ssa.Value(a) && walk(st.Val) {
+								return true
+							}
+						}
+					}
+				case *ssa.Alloc:
+					for _, ref := range *x.Referrers() {
+						if st, isSt := ref.(*ssa.Store); isSt && st.Addr == ssa.Value(x) && walk(st.Val) {
+							return true
+						}
+					}
+				}
+				return false
+			}
+			return walk(v)
+		}
+		isBrokerID := func(v ssa.Value) bool {
+			switch x := v.(type) {
+			case *ssa.Field:
+				return an.NamedIs(x.X.Type(), protoPath, "Broker") && an.FieldName(x.X.Type(), x.Field) == "ID"
+			case *ssa.UnOp:
+				if fa, ok := x.X.(*ssa.FieldAddr); ok {
+					return an.NamedIs(derefType(fa.X.Type()), protoPath, "Broker") && an.FieldName(fa.X.Type(), fa.Field) == "ID"
+				}
+			}
+			return false
+		}
+		// the broker that is returned
+		acc := map[ssa.Value]bool{}
+		an.EachInstr(fn, func(ins ssa.Instruction) {
+			if ret, ok := ins.(*ssa.Return); ok && ret.Parent() == fn && len(ret.Results) == 2 {
+				v := an.RetVal(ret, 0)
+				if ld, isLd := v.(*ssa.UnOp); isLd {
+					acc[ld.X] = true
+				}
+				acc[v] = true
+			}
+		})
+		isAcc := func(v ssa.Value) bool {
+			switch x := v.(type) {
+			case *ssa.Field:
+				return acc[x.X]
+			case *ssa.UnOp:
+				if fa, ok := x.X.(*ssa.FieldAddr); ok {
+					return acc[fa.X]
+				}
+			}
+			return false
+		}
+		// (2) a test "the leader found differs from the broker chosen so far" whose yes-edge returns an error
+		mismatch := false
+		for _, b := range an.Blocks(fn) {
+			_, ci := an.IfCond(b)
+			if ci == nil || (ci.Op != token.NEQ && ci.Op != token.EQL) {
+				continue
+			}
+			if !isBrokerID(ci.X) || !isBrokerID(ci.Y) {
+				continue
+			}
+			// one side is the broker the function returns (the choice accumulated so far), the other the leader just
+			// looked up
+			ax, ay := isAcc(ci.X), isAcc(ci.Y)
+			if ax != ay && ((ax && fromLookup(ci.Y)) || (ay && fromLookup(ci.X))) {
+				mismatch = true
 			}
 		}
-		sort.Strings(out)
-		return out
+		r.Check(len(lookups) >= 1 && mismatch, rule, construct, p.Pos(fn.Pos()), "b, ok := cluster.Brokers[partition.Leader]; !ok → no leader; b.ID != broker.ID → mismatching leaders", fmt.Sprintf("leader lookups=%d, comparison of the found leader's ID with the chosen broker's ID=%v", len(lookups), mismatch))
 	}
-	ca, cb := conds(a), conds(b)
-	hasMismatch := false
-	for _, c := range cb {
-		if strings.Count(c, ".ID") == 2 && strings.Contains(c, "!=") {
-			hasMismatch = true
-		}
-	}
-	r.Check(strings.Join(ca, " ; ") == strings.Join(cb, " ; ") && hasMismatch, rule, "fetch.(*Request).Broker tests what produce.(*Request).Broker tests (leader exists; same leader as the partitions seen so far)", p.Pos(b.Pos()),
-		strings.Join(ca, " ; "), strings.Join(cb, " ; "))
+	r.RequireCount(rule, n, 2)
 }
 
 // c12ControllerFromMetadata: the controller the layout names is the one the metadata response names; a layout that
